@@ -43,6 +43,21 @@ T = {
  "C18-m2": ("C18", "storage.rs `unsafe impl<T> Send for DataPtr<T>` without T: Send", "a world with an Rc component moved to another thread"),
  "C19-m1": ("C19", "version.rs wrapping_version arm: `get() + 1` instead of wrapping_add(1)", "wrapping_version + overflow checks on (debug) + a counter at u32::MAX advanced once more: panics instead of wrapping"),
  "C19-m2": ("C19", "storage.rs resolve_direct: real bound check replaced by debug_checked_assume!", "release build + a direct handle from another storage instance with equal version and index >= len"),
+ "C13-r2m1": ("C13", "storage.rs Clone: version restarted (ArchetypeVersion::start())", "a removal before the clone + a direct handle issued before cloning used on the clone"),
+ "C13-r2m2": ("C09", "storage.rs force_destroy: archetype version only bumped when last_dense_index > 0", "removal taking an archetype from len 1 to 0, a direct handle issued before it, then a creation: the stale handle designates the new entity"),
+ "C13-r2m3": ("C07", "macros generate/query.rs ecs_iter_destroy!: `if len == 0 { return; }` ends the whole query", "a query matching >= 2 archetypes where an earlier one is empty and a later one populated"),
+ "C13-r2m4": ("C13", "storage.rs Clone (events): destroyed: self.created.clone()", "events feature + pending created != pending destroyed at clone time"),
+ "C03-r2m1": ("C03", "storage.rs resolve_entity: capacity bound check `>` instead of `>=`", "forged handle with position == capacity on a non-empty archetype, release build: reads one slot past the sparse array"),
+ "C03-r2m2": ("C03", "macros generate/world.rs ArchetypeCanResolve<EntityAny>::resolve_view uses from_any_unchecked", "archetype-level view() with an EntityAny of another archetype / undeclared id whose position and generation coincide with a live entity (release); debug_assert panic in debug"),
+ "C03-r2m3": ("C03", "storage.rs to_direct(direct key) compares the archetype version only", "foreign direct handle with matching version and index >= len (e.g. against an empty archetype)"),
+ "C05-r2m1": ("C05", "macros generate/query.rs bind_query_params: resolved OneOf parameters appended after the others", "a OneOf followed by another parameter: names and columns paired in different orders"),
+ "C05-r2m2": ("C15", "macros data.rs DataWorld::new: last_component_id not reset per archetype", "a non-first archetype with an implicitly numbered component before any explicit id"),
+ "C05-r2m3": ("C16", "macros generate/query.rs bind_query_params: cfg-disabled EntityDirect<A> parameter still restricts the match", "#[cfg(false)] d: &EntityDirect<A> where another archetype satisfies the remaining parameters"),
+ "C05-r2m4": ("C05", "macros generate/query.rs generate_query_iter_destroy: `break` on the first non-matching archetype", "ecs_iter_destroy! on a world declared matching, non-matching, matching"),
+ "C04-r2m1": ("C04", "storage.rs DataPtr::swap_remove assigns over the moved-out cell (drops it)", "destroy of an entity not in the last dense position with a Drop component: dropped inside destroy and again by the caller"),
+ "C04-r2m2": ("C04", "storage.rs Clone takes source column slices up to capacity", "clone while len < capacity: Clone::clone runs on dead/uninitialised cells"),
+ "C04-r2m3": ("C04", "macros generate/query.rs ecs_iter_destroy! BreakDestroy arm forgets the removed components", "a closure returning BreakDestroy on an entity with Drop components"),
+ "C01-r2m3": ("C07", "macros generate/query.rs ecs_iter_destroy! BreakDestroy arm returns without destroying", "any closure returning BreakDestroy"),
 }
 
 
